@@ -1,6 +1,6 @@
 (* modelrun command "codegen-x86": the model of the x86-64 code generator against the real one. *)
 From Coq Require Import List ZArith NArith String Bool.
-From SCC Require Import Base.Sexp Lang.AxSyn Sem.AxSem Sem.AxTrace Sem.X86Sem Sem.X86Wf Sem.HeapCheck Sem.X86Heap Model.Backend Model.X86 Model.X86Io Model.RunBase.
+From SCC Require Import Base.Sexp Lang.AxSyn Sem.AxSem Sem.AxTrace Sem.X86Sem Sem.X86Wf Sem.LabelGuard Sem.HeapCheck Sem.X86Heap Model.Backend Model.X86 Model.X86Io Model.RunBase.
 Import ListNotations.
 Open Scope string_scope.
 
@@ -235,18 +235,32 @@ Definition show_x86_case (i r : sexp) : verdict :=
 Definition run_show_x86 : string -> string := run_cases show_x86_case.
 
 (* ---------- C14: assembler-level well-formedness of the implementation's output ---------- *)
+(* was the program inside the guard of the label theorems (Proof/LabelThms.v)? *)
+Definition guard_tag (p : sexp) : string :=
+  match g_prog p with
+  | Some pp => (if labels_guard pp then " guard" else if name_digits pp then " name-digits" else " noguard")
+               ++ (if calls_guard pp then "" else " open-calls")
+  | None => ""
+  end.
 Definition wf_x86_case (i r : sexp) : verdict :=
   match i, r with
   | L [Q _; p; lc; _], L [cs; _] =>
       match g_xcodes cs with
       | Some cs =>
           match asm_wf cs with
-          | Some why => VViol ("class=asm-ill-formed " ++ why)
+          | Some why =>
+              (* known finding: <Type>_<k>[_<Xtor>] is ambiguous when type AND xtor names carry `_<digits>` *)
+              match first_dup (defined_labels cs), g_prog p with
+              | Some l, Some pp => if name_digits pp then VViol ("class=label-collision-name-digits " ++ why)
+                                   else VViol ("class=asm-ill-formed " ++ why)
+              | _, _ => VViol ("class=asm-ill-formed " ++ why)
+              end
           | None =>
               let nlab := List.length (defined_labels cs) in
               let big := existsb (fun c => match c with MOVI _ i => negb (fits32 i) | _ => false end) cs in
               VOk ("nt labels" ++ n_to_string (N.log2 (N.of_nat nlab + 1)) ++ (if big then " imm64" else "")
-                   ++ (if existsb (fun c => match c with JMPLN _ => true | _ => false end) cs then " table" else ""))
+                   ++ (if existsb (fun c => match c with JMPLN _ => true | _ => false end) cs then " table" else "")
+                   ++ guard_tag p)
           end
       | None => VBad "rust output unreadable"
       end
